@@ -19,6 +19,8 @@ type flexSut struct {
 	next int
 	hash uint64
 	ops  int
+
+	maxLen, maxCap int
 }
 
 func (s *flexSut) note(op byte, a, b int) {
@@ -57,27 +59,42 @@ func (s *flexSut) preset(n, cp int) {
 // verify compares the whole sequence (Values and Len) with the model.
 func (s *flexSut) verify(op string, info ...int) bool {
 	c := s.c
-	sig := "flex-seq/" + op
-	if len(info) == 3 {
-		op = fmt.Sprintf("%s(%d values) on len %d cap %d", op, info[0], info[1], info[2])
-	}
 	var n int
 	if !c.Guard("Len", func() { n = s.f.Len() }) {
 		return false
 	}
 	vals := s.f.Values
+	bad := -1
 	if n != len(s.m) || len(vals) != len(s.m) {
-		c.Failf(sig, "after %s: Len() = %d, len(Values) = %d, sequence model has %d elements (Values %v, model %v)", op, n, len(vals), len(s.m), vals, s.m)
-		return false
-	}
-	for i := range vals {
-		if vals[i] != s.m[i] {
-			c.Failf(sig, "after %s: Values[%d] = %d, sequence model has %d (Values %v, model %v)", op, i, vals[i], s.m[i], vals, s.m)
-			return false
+		bad = len(s.m)
+	} else {
+		for i := range vals {
+			if vals[i] != s.m[i] {
+				bad = i
+				break
+			}
 		}
 	}
-	c.Max("flex_max_len", int64(len(s.m)))
-	c.Max("flex_max_cap", int64(cap(vals)))
+	if bad >= 0 {
+		sig := "flex-seq/" + op
+		if len(info) == 3 {
+			op = fmt.Sprintf("%s(%d values) on len %d cap %d", op, info[0], info[1], info[2])
+		}
+		if n != len(s.m) || len(vals) != len(s.m) {
+			c.Failf(sig, "after %s: Len() = %d, len(Values) = %d, sequence model has %d elements (Values %v, model %v)", op, n, len(vals), len(s.m), vals, s.m)
+		} else {
+			c.Failf(sig, "after %s: Values[%d] = %d, sequence model has %d (Values %v, model %v)", op, bad, vals[bad], s.m[bad], vals, s.m)
+		}
+		return false
+	}
+	if len(s.m) > s.maxLen {
+		s.maxLen = len(s.m)
+		c.Max("flex_max_len", int64(len(s.m)))
+	}
+	if cap(vals) > s.maxCap {
+		s.maxCap = cap(vals)
+		c.Max("flex_max_cap", int64(cap(vals)))
+	}
 	return true
 }
 
@@ -171,7 +188,7 @@ func (s *flexSut) doGet(i int) bool {
 }
 
 // removal judges Remove(i), Pop() and Shift() (i is the index the model removes).
-func (s *flexSut) removal(name string, i int, call func() (int, bool)) bool {
+func (s *flexSut) removal(name, key string, i int, call func() (int, bool)) bool {
 	c := s.c
 	capBefore, lenBefore := cap(s.f.Values), len(s.f.Values)
 	var v int
@@ -182,14 +199,19 @@ func (s *flexSut) removal(name string, i int, call func() (int, bool)) bool {
 	if c.Logging() {
 		c.Logf("%s -> %d, %v ; len %d cap %d -> len %d cap %d", name, v, ok, lenBefore, capBefore, len(s.f.Values), cap(s.f.Values))
 	}
-	c.Add("flex_ops/"+name, 1)
+	c.Add(key, 1)
 	if i >= 0 && i < len(s.m) {
 		want := s.m[i]
 		if !ok || v != want {
 			c.Failf("flex-remove/"+name, "%s (index %d of %d) = (%d, %v), the sequence model removes %d", name, i, len(s.m), v, ok, want)
 			return false
 		}
-		s.m = append(s.m[:i:i], s.m[i+1:]...)
+		if i == 0 {
+			s.m = s.m[1:]
+		} else {
+			copy(s.m[i:], s.m[i+1:])
+			s.m = s.m[:len(s.m)-1]
+		}
 		if cap(s.f.Values) < capBefore {
 			c.Add("flex_shrinks", 1)
 			if cap(s.f.Values) == 8 {
@@ -213,12 +235,12 @@ func (s *flexSut) removal(name string, i int, call func() (int, bool)) bool {
 
 func (s *flexSut) doRemove(i int) bool {
 	s.note('r', i, 0)
-	return s.removal("Remove", i, func() (int, bool) { return s.f.Remove(i) })
+	return s.removal("Remove", "flex_ops/Remove", i, func() (int, bool) { return s.f.Remove(i) })
 }
 
 func (s *flexSut) doPop() bool {
 	s.note('o', 0, 0)
-	return s.removal("Pop", len(s.m)-1, func() (int, bool) { return s.f.Pop() })
+	return s.removal("Pop", "flex_ops/Pop", len(s.m)-1, func() (int, bool) { return s.f.Pop() })
 }
 
 func (s *flexSut) doShift() bool {
@@ -227,7 +249,7 @@ func (s *flexSut) doShift() bool {
 	if len(s.m) == 0 {
 		i = -1
 	}
-	return s.removal("Shift", i, func() (int, bool) { return s.f.Shift() })
+	return s.removal("Shift", "flex_ops/Shift", i, func() (int, bool) { return s.f.Shift() })
 }
 
 // doSub compares SubSlice with the documented window; with adopt the harness
